@@ -97,6 +97,31 @@ func rulesC07(c *Ctx) {
 			}
 		}
 	}
+	// a deactivating function that is new on this tree is a piece of its callers: the callers are the rotation
+	for changed, rounds := true, 0; changed && rounds < 5; rounds++ {
+		changed = false
+		var next []*ssa.Function
+		seenRot := map[*ssa.Function]bool{}
+		for _, f := range rot {
+			if c.P.IsNewFunc(f) {
+				if sites := c.callersOf(f); len(sites) > 0 {
+					for _, s := range sites {
+						if top := EnclosingTop(s.Parent()); !seenRot[top] {
+							seenRot[top] = true
+							next = append(next, top)
+						}
+					}
+					changed = true
+					continue
+				}
+			}
+			if !seenRot[f] {
+				seenRot[f] = true
+				next = append(next, f)
+			}
+		}
+		rot = next
+	}
 	sort.Slice(rot, func(i, j int) bool { return c.P.FuncKey(rot[i]) < c.P.FuncKey(rot[j]) })
 	for _, f := range rot {
 		add("rotate:"+c.P.FuncKey(f), f, "rotate", absStore{pay: "none", mintQ: "-", meltQ: "-", active: 1})
